@@ -213,7 +213,12 @@ class Parser:
         else:
             raise PestGrammarSyntaxError(f"unexpected token {token.kind}", token=token)
 
-        left = self.parse_postfix_expression(left)
+        # Any number of postfix operators, innermost first.
+        while True:
+            postfixed = self.parse_postfix_expression(left)
+            if postfixed is left:
+                break
+            left = postfixed
 
         while True:
             kind = self.current().kind
